@@ -182,7 +182,7 @@ def rule_worklist(ctx):
     if it and len(it[0].args) == 4:
         a = [norm_src(x) for x in it[0].args]
         good = match("__wk.iter_rows(int(__rng['r1']), min(int(__rng['r2']), "
-                     "__mr), __rng['n1'], min(__rng['n2'], __mc))",
+                     "___mr), __rng['n1'], min(__rng['n2'], ___mc))",
                      it[0]) is not None
         if good:
             rr.ok('rows/columns are read from r1..min(r2, max_row), '
